@@ -67,7 +67,7 @@ func VerifC10_HTTPSenderWire() {
 	verif_Assert(serr == nil, "sending to indexers that answer 200/204 succeeds")
 	verif_Assert(len(rt.bodies) == nURLs, "every indexer received the announcement")
 	verif_Assert(len(msg.Addrs) == nAddrs, "the caller's message is not modified")
-	for host, body := range rt.bodies {
+	for _, body := range rt.bodies {
 		var got message.Message
 		derr := got.UnmarshalCBOR(bytes.NewReader(body))
 		verif_Assert(derr == nil, "what is on the wire decodes")
